@@ -33,6 +33,10 @@ LEMMA StepInd == IndInv /\ [Next]_vars => IndInv'
   BY <1>3 DEF NextIdWrite
 <1>4. ASSUME NEW c \in Callers, PutChannel(c) PROVE IndInv'
   BY <1>4 DEF PutChannel
+<1>4a. ASSUME NEW c \in Callers, PutCheck(c) PROVE IndInv'
+  BY <1>4a DEF PutCheck
+<1>4b. ASSUME NEW c \in Callers, PutRegister(c) PROVE IndInv'
+  BY <1>4b DEF PutRegister
 <1>5. ASSUME NEW c \in Callers, SendHdr(c) PROVE IndInv'
   BY <1>5 DEF SendHdr
 <1>6. ASSUME NEW c \in Callers, SendPayload(c) PROVE IndInv'
@@ -51,7 +55,7 @@ LEMMA StepInd == IndInv /\ [Next]_vars => IndInv'
   BY <1>12 DEF RdFail, WrFail, RecvDeliver, RecvErr, RecvCloseWriter, BcastOne, BcastDone, Quiet, vars
 <1>13. CASE UNCHANGED vars
   BY <1>13 DEF vars
-<1> QED BY <1>1, <1>2, <1>3, <1>4, <1>5, <1>6, <1>7, <1>8, <1>9, <1>10, <1>11, <1>12, <1>13 DEF Next
+<1> QED BY <1>1, <1>2, <1>3, <1>4, <1>4a, <1>4b, <1>5, <1>6, <1>7, <1>8, <1>9, <1>10, <1>11, <1>12, <1>13 DEF Next
 
 THEOREM DistinctIds == Spec => []Inv_C03_DistinctIds
 <1>1. IndInv => Inv_C03_DistinctIds
